@@ -43,9 +43,15 @@ fn check_chain(widths: &[usize]) -> Result<(), String> {
 }
 
 fn check_chain_inner(widths: &[usize]) -> Result<(), String> {
+    // (a width of 0 in the chain stands for a hard reset, ESC c, at the current width:
+    // a terminal that was reset is a never-customised terminal again)
     let mut vt = build_vt(widths[0], 2, Some(0));
     for &w in &widths[1..] {
-        let _ = vt.resize(w, 2);
+        if w == 0 {
+            let _ = vt.feed_str("\x1bc");
+        } else {
+            let _ = vt.resize(w, 2);
+        }
     }
     let last = *widths.last().unwrap();
     let want = default_stops(last);
@@ -78,15 +84,27 @@ fn width_sweep(ctx: &Ctx, rep: &mut Report) {
             }
         }
     }
+    // the same chains with a hard reset in between
+    for a in 1..=n1 {
+        for b in 1..=n1 {
+            if a <= 40 && b <= 40 || (a % 8 <= 1 && b % 8 <= 1) {
+                for c in [1usize, 7, 8, 9, 16, 17, 20, 26, 33, 40, 80] {
+                    cases.push(vec![a, b, 0, c]);
+                    cases.push(vec![a, 0, b, c]);
+                }
+            }
+        }
+    }
     let bad: Vec<(Vec<usize>, String)> = cases
         .par_iter()
         .filter_map(|w| check_chain(w).err().map(|e| (w.clone(), e)))
         .collect();
     rep.evaluations += cases.len() as u64;
     rep.transitions += cases.iter().map(|c| c.len() as u64 - 1).sum::<u64>();
+    let with_reset = cases.iter().filter(|c| c.contains(&0)).count();
     rep.traces_validated += cases.len() as u64;
     rep.distinct_nontrivial += cases.iter().filter(|c| c.windows(2).any(|w| w[1] > w[0] && w[1] > 8)).count() as u64;
-    rep.parts.push(json!({"part":"width-chains","pairs_up_to":n1,"triples_up_to":n3,"cases":cases.len(),"violating":bad.len()}));
+    rep.parts.push(json!({"part":"width-chains","pairs_up_to":n1,"triples_up_to":n3,"chains_with_a_hard_reset":with_reset,"cases":cases.len(),"violating":bad.len()}));
     rep.samples.push(json!({"widths":[80,100]}));
     println!("part width-chains: {} cases, {} violating", cases.len(), bad.len());
     for (w, e) in bad.iter().take(3) {
